@@ -9,7 +9,9 @@ Definition must_tx (o : op) : bool :=
 Lemma query_pipeline_mid : forall must c a q s, mid must s (run_pipeline c a q query_pipeline s).
 Proof.
   intros. unfold run_pipeline, query_pipeline. cbn [fold_left run_cb].
-  eapply mid_trans; [apply stmt_query_mid | apply hooks_phase_mid].
+  eapply mid_trans; [apply stmt_query_mid|]. eapply mid_trans; [|apply hooks_phase_mid].
+  unfold preload_cb. match goal with |- context [if ?b then _ else _] => destruct b end; [|apply mid_refl].
+  eapply mid_trans; apply nested_query_mid.
 Qed.
 
 Lemma init_inv : forall must o, Inv must (init_state o) /\ s_started (init_state o) = false
@@ -50,7 +52,7 @@ Lemma fallback_ok : forall o s1, op_ok o -> is_query o = false -> keys s1 = rkey
 Proof.
   intros o s1 (U & OK) Q K E. unfold is_query in Q.
   assert (G : goodk (o_shape o) (keys s1) /\ assocs_ok (op_cx o (o_skip o) DSelf) (o_assocs o)).
-  { rewrite K. destruct (o_kind o); try discriminate; try contradiction; exact OK. }
+  { rewrite K. destruct (o_kind o); try discriminate; try contradiction; (split; [apply OK | apply OK]). }
   destruct G as [G AO].
   set (cF := op_cx o true DSelf).
   assert (FB : hstep (o_fails o) s1 (run_pipeline cF (o_assocs o) no_q create_pipeline s1)
@@ -99,7 +101,7 @@ Proof.
       assert (Qf : is_query o = false) by (unfold is_query; rewrite KD; reflexivity).
       pose proof (run_body_step o (init_state o) OK Qf KS) as HS.
       (* the update pipeline keeps the keys *)
-      destruct OK as (U & OK). rewrite KD in OK. destruct OK as (G & AO).
+      destruct OK as (U & OK). rewrite KD in OK. destruct OK as (G & AO & XD).
       assert (UP : hstep (o_fails o) (init_state o) s1
                 (gated (init_state o) (sched_log (cu_sched (op_cx o (o_skip o) DSelf) PBeforeUpdate PAfterUpdate (map fst (keys (init_state o))) (o_assocs o)) (s_k (init_state o)) (o_fails o)))).
       { subst s1. rewrite update_pipeline_eq. apply (cu_body_step (op_cx o (o_skip o) DSelf)); try apply U; try assumption.
@@ -223,12 +225,13 @@ Proof.
 Qed.
 
 Lemma set_column_self : forall c i v s r,
+  x_setall (c_x c) = false ->
   c_dest c = DSelf -> sh_cont (c_shape c) <> CStruct -> nth_error (s_recs s) i = Some r ->
   nth_error (s_recs (set_column c i v s)) i = Some (mk_rec (m_id r) (m_tag r) v (m_nil r))
   /\ (forall j, j <> i -> nth_error (s_recs (set_column c i v s)) j = nth_error (s_recs s) j)
   /\ s_err (set_column c i v s) = s_err s.
 Proof.
-  intros c i v s r D NS H. unfold set_column. rewrite D.
+  intros c i v s r XA D NS H. unfold set_column, set_rec_val. rewrite D, XA.
   destruct (sh_cont (c_shape c)); try congruence; cbn -[set_nth_val];
     (split; [apply set_nth_val_nth; exact H | split; [intros j NE; apply set_nth_val_other; congruence | reflexivity]]).
 Qed.
